@@ -425,6 +425,9 @@ fn c12_some(ctx: &mut Ctx, data: &Value, need: u64, keys: &[Value], computed: bo
             if max_present < need && Value::Array(got.clone()).to_string() != Value::Array(absent_distinct.clone()).to_string() {
                 ctx.violation("c12.missing_some.laws", "absent-counted-as-present", &rule, data, json!(absent_distinct), obs.out.brief(), "fewer than the required number of keys are present, yet the distinct missing keys were not returned");
             }
+            if present_mult >= need && !got.is_empty() {
+                ctx.violation("c12.missing_some.laws", "met-by-listed-entries-but-nonempty", &rule, data, json!([]), obs.out.brief(), "enough listed keys (counting every listing) are present but the result is not empty");
+            }
             if min_present >= need && !got.is_empty() {
                 ctx.violation("c12.missing_some.laws", "met-but-nonempty", &rule, data, json!([]), obs.out.brief(), "enough keys are present but the result is not empty");
             }
